@@ -285,7 +285,8 @@ theorem facts_shape :
     ∧ handlerBody = ["l.count = l.count + 1", "if l.MaxItems > 0 && l.count >= l.MaxItems { return MaxItemsExceededError }", "return nil"]
     ∧ sinkReset = ["w.recursionDepth = 0", "w.failedInRun = false", "for _, eh := range w.failingEntityHandlers { eh.reset() }"]
     ∧ logReset = ["l.count = 0"]
-    ∧ rerunCond = ["j.errorHandlers != nil", "eh.MaxRetries > 0"] := by decide
+    ∧ rerunCond = ["j.errorHandlers != nil", "eh.MaxRetries > 0"]
+    ∧ rerunBody = ["eh.MaxRetries = eh.MaxRetries - 1", "time.AfterFunc(…)"] := by decide
 
 -- non-vacuity: a run in which the 2nd entity is rejected and the others delivered
 example : let r := run (permSink (fun e : Nat => e == 2)) 0 [[1, 2, 3], [4]] ({ sink := () } : St Nat Unit).reset
